@@ -59,6 +59,10 @@ type fmtRun struct {
 	fnItems  []*fnRec
 	fnSeen   map[string]bool
 	fnIdem   map[int]bool // FnIdem verdicts of "fn" records by id (filled by validate)
+	// function values in a session (fmtsession.go, spec/FormatFnSession.tla)
+	sessItems []*fsRec
+	sessID    []int // law record id of each item
+	sessSab   int   // id of the corrupted record that must be rejected
 }
 
 // addFn records the function value a one-statement source defines (Inspect and SaveGlobals texts).
@@ -186,7 +190,7 @@ func fmtGenCfg(thorough bool) string {
 		t = "TRUE"
 	}
 	return `CONSTANTS
- Families = {"prec","oppair","signs","depth3","stmtpair","stmt","comment","string","literal","func","fnbody","spine","sibling","spinefn","cmtfirst","dotnum","mlcomment","source"}
+ Families = {"prec","oppair","signs","depth3","stmtpair","stmt","comment","string","literal","func","fnbody","spine","sibling","spinefn","cmtfirst","dotnum","mlcomment","source","maps"}
  Thorough = ` + t + "\nINIT Init\nNEXT Next\n"
 }
 
@@ -292,7 +296,7 @@ func (fr *fmtRun) genRecords(r *TLCResult, tTLC time.Time) error {
 			}
 		}
 		ws, _ := fmtRenderProgram(g.T, fsWS, rng)
-		if g.Fam == "func" || g.Fam == "stmt" || g.Fam == "fnbody" || g.Fam == "spinefn" || g.Fam == "cmtfirst" || g.Fam == "dotnum" {
+		if g.Fam == "func" || g.Fam == "stmt" || g.Fam == "fnbody" || g.Fam == "spinefn" || g.Fam == "cmtfirst" || g.Fam == "dotnum" || g.Fam == "maps" {
 			fr.addFnStatements(g.T)
 		}
 		want := ""
